@@ -1,7 +1,6 @@
 package verifc04
 
 import (
-	"archive/tar"
 	"fmt"
 	"os"
 )
@@ -93,10 +92,5 @@ func Suspects(g *Gen) (early, lateIn []Input) {
 	add("hardlink-cycle", g.blobInput(gz, "", toc(E("a", "hardlink", "linkName", "b"), E("b", "hardlink", "linkName", "a"))))
 	add("hardlink-to-parent-dir", g.blobInput(gz, "", toc(E("d/", "dir"), E("d/x", "hardlink", "linkName", "d"))))
 	add("hardlink-to-root", g.blobInput(gz, "", toc(E("d/", "dir"), E("d/x", "hardlink", "linkName", ""))))
-	// builder: hardlink cycle with a prioritized member
-	cyc := append(baseTar(), tarEnt{name: "l1", typ: tar.TypeLink, link: "l2"}, tarEnt{name: "l2", typ: tar.TypeLink, link: "l1"})
-	add("build-hardlink-cycle-prioritized", Input{Kind: "tar", Data: MakeTar(cyc), Prio: []string{"l1"}})
-	self := append(baseTar(), tarEnt{name: "s", typ: tar.TypeLink, link: "s"})
-	add("build-hardlink-self-prioritized", Input{Kind: "tar", Data: MakeTar(self), Prio: []string{"s"}})
 	return out, late
 }
